@@ -178,36 +178,53 @@ Record hstep := HStep {
   hs_load : option cfg_text;     (* Some c: load_config(text of c) was called before this emission; None: not called *)
   hs_doc : doc;                  (* resolved document of the emitted file, CLI view *)
   hs_B : list defbody;
+  hs_spreads : list str;         (* fragment names spread in the resolved document, document / depth-first order *)
   hs_safe : bool;                (* the suffixes of the configuration current at this step are identifier-like *)
   hs_same : bool;                (* text returned by the real emit_js = JS printer with from_config(parse_config(current text)) *)
-  hs_tdts : text_exports;        (* export lines of the declaration file printed from the current configuration text *)
-  hs_temit : text_exports        (* export lines of the text the real emit_js returned at this step *)
+  hs_tdts : text_exports;        (* export lines of the declaration file printed from the current configuration text;
+                                    nothing when `nitrogql generate` refuses the document *)
+  hs_temit : option text_exports;(* export lines of the text the real emit_js returned at this step; None: emit_js returned false *)
+  hs_err : option str            (* then: the fragment named by "Fragment '…' is not defined" *)
 }.
 
-(* the model's fold: the configuration current at each step *)
+(* the model's fold: the configuration current at each step; a failing emit is "no module" *)
 Fixpoint agree_hist (cur : cfg_text) (h : list hstep) : bool :=
   match h with
   | [] => true
   | st :: r =>
       let cur' := match hs_load st with Some c => c | None => cur end in
-      match run_loader cur' [LEmit (hs_doc st) (hs_B st)] with
-      | [(_, _, _, ops)] =>
-          hs_same st
-          && (if hs_safe st then
-                text_agrees ops (hs_temit st)
-                && text_agrees (dts_of_config cur' (hs_doc st) (hs_B st)) (hs_tdts st)
-              else true)
+      match run_loader2 cur' [L2Emit (hs_doc st) (hs_B st) (hs_spreads st)] with
+      | [(_, _, _, EModule ops)] =>
+          match hs_temit st with
+          | Some te =>
+              hs_same st
+              && (if hs_safe st then
+                    text_agrees ops te
+                    && text_agrees (dts_of_config cur' (hs_doc st) (hs_B st)) (hs_tdts st)
+                  else true)
+          | None => false
+          end
+      | [(_, _, _, EError n)] =>
+          match hs_temit st, hs_err st with
+          | None, Some m => str_eqb n m
+          | _, _ => false
+          end
       | _ => false
       end
       && agree_hist cur' r
   end.
 
-(* the property per step, on the implementation's outputs only *)
+(* the property per step, on the implementation's outputs only: what is declared under the current configuration
+   is exported by the module emitted at that step; where no module is emitted nothing may be declared *)
 Definition holds_hist (h : list hstep) : bool :=
   forallb (fun st =>
-    if hs_safe st then
-      subset_str (fst (hs_tdts st)) (fst (hs_temit st)) && list_eqb str_eqb (snd (hs_tdts st)) (snd (hs_temit st))
-    else true) h.
+    match hs_temit st with
+    | Some te =>
+        if hs_safe st then
+          subset_str (fst (hs_tdts st)) (fst te) && list_eqb str_eqb (snd (hs_tdts st)) (snd te)
+        else true
+    | None => match hs_tdts st with ([], []) => true | _ => false end
+    end) h.
 
 Inductive tcase := One (c : case) | Hist (h : list hstep).
 Definition agree_t (t : tcase) : bool := match t with One c => agree c | Hist h => agree_hist None h end.
